@@ -35,6 +35,9 @@ func targetsOf(c *Ctx, known map[string]bool, rule string) []string {
 				name = name[:k]
 			}
 			set[name] = true
+			for _, rel := range o.Related {
+				set[rel] = true
+			}
 		}
 	}
 	return sortedKeys(set)
@@ -204,7 +207,8 @@ func withdrawOnNormalForms(c *Ctx, fs *formSet, verbose bool) {
 							found = true
 						}
 					}
-					if !found {
+					// a helper that was inlined into its only caller and dropped lives on in the caller
+					if !found && nf.Prog.fn(o.Func) != nil {
 						vanished = o.Func
 					}
 				}
